@@ -152,31 +152,21 @@ Definition merge_cells_panics (r : list N) : bool :=
   let count := rd 2 0 r in
   (0 <? count) && (lenN r <? 2 + 8 * count).
 
-(* Range::from_sparse as of repo commit 3140dd1: all four bounds are searched (it used to take
-   the rows of the first and last cell, which is what Range.from_sparse of C05 still models;
-   BiffRec_proofs.from_sparse_h_sorted shows the two agree on row-sorted cells, the only case the
-   theorems need).  Positions are u32, the sizes usize: nothing here can overflow or underflow. *)
-Definition fs_min (T : Type) (f : pos -> N) (cells : list (pos * T)) : N :=
-  fold_left (fun m c => if f (fst c) <? m then f (fst c) else m) cells U32MAX.
-Definition fs_max (T : Type) (f : pos -> N) (cells : list (pos * T)) : N :=
-  fold_left (fun m c => if m <? f (fst c) then f (fst c) else m) cells 0.
-
-Definition from_sparse_h (T : Type) (d : T) (cells : list (pos * T)) : outcome (range T) :=
-  match cells with
-  | [] => Ok empty
-  | _ :: _ =>
-    let row_start := fs_min fst cells in
-    let row_end := fs_max fst cells in
-    let col_start := fs_min snd cells in
-    let col_end := fs_max snd cells in
-    let cols := col_end - col_start + 1 in
-    let rows := row_end - row_start + 1 in
-    let len := cols * rows in
-    let v := fold_left (fun v c =>
-               let idx := (fst (fst c) - row_start) * cols + (snd (fst c) - col_start) in
-               if idx <? len then list_set v (N.to_nat idx) (snd c) else v)
-             cells (repeat d (N.to_nat len)) in
-    Ok (mkRange (row_start, col_start) (row_end, col_end) v)
+(* read_dbcs (the reader of the shared string table, used by the STRING arm since the fix of the
+   StringContinue defect): the UTF-16LE bytes of [len] characters taken from [data] and then
+   from the CONTINUE chunks, each chunk starting with its own fHighByte byte; compressed
+   characters are widened.  One streaming decoder runs over all segments, i.e. the text is the
+   decoding of the concatenation.  Errors: no chunk left (EoStream), an empty chunk. *)
+Fixpoint dbcs_bytes (conts : list (list N)) (data : list N) (len : N) (hb : bool) (acc : list N)
+  : outcome (list N) :=
+  let l := if hb then N.min (lenN data / 2) len else N.min (lenN data) len in
+  let bytes := if hb then firstn (N.to_nat (2 * l)) data
+               else flat_map (fun b => [b; 0]) (firstn (N.to_nat l) data) in
+  if len - l =? 0 then Ok (acc ++ bytes) else
+  match conts with
+  | [] => Err 1
+  | [] :: _ => Err 1
+  | (fl :: rest) :: conts' => dbcs_bytes conts' rest (len - l) (N.odd fl) (acc ++ bytes)
   end.
 
 Section Biff.
@@ -276,7 +266,16 @@ Definition step (r : frec) (cells : list cellv) (fpos : pos) (fmls : list pos) :
   else if t =? 516 then do c <- parse_label d; Ok (Next (cells ++ c) fpos fmls)       (* 0x0204 *)
   else if t =? 517 then do c <- parse_bool_err d; Ok (Next (cells ++ c) fpos fmls)    (* 0x0205 *)
   else if t =? 519 then                                                              (* 0x0207 *)
-    do s <- parse_string d; Ok (Next (cells ++ [(fpos, DString s)]) fpos fmls)
+    (* a record carrying CONTINUE data is read through read_dbcs: cch characters from the
+       record and its continuation *)
+    do s <- match f_cont r with
+            | None => parse_string d
+            | Some conts =>
+                if lenN d <? 3 then parse_string d else
+                do b <- dbcs_bytes conts (skipn 3 d) (rd 2 0 d) (N.odd (nth 2 d 0)) [];
+                Ok (decode16 b)
+            end;
+    Ok (Next (cells ++ [(fpos, DString s)]) fpos fmls)
   else if t =? 638 then do c <- parse_rk d; Ok (Next (cells ++ c) fpos fmls)          (* 0x027E *)
   else if t =? 253 then do c <- parse_label_sst d; Ok (Next (cells ++ c) fpos fmls)   (* 0x00FD *)
   else if t =? 189 then do c <- parse_mul_rk d; Ok (Next (cells ++ c) fpos fmls)      (* 0x00BD *)
@@ -324,8 +323,8 @@ Definition sheet_cells (stream : list N) : outcome (list cellv * list pos) :=
    Range::from_sparse(formulas) (nothing of it is observable here any more: it cannot panic) *)
 Definition sheet_model (stream : list N) : outcome (range data) :=
   do cf <- sheet_cells stream;
-  do r <- from_sparse_h DEmpty (fst cf);
-  do _ <- from_sparse_h tt (map (fun p => (p, tt)) (snd cf));
+  do r <- from_sparse DEmpty (fst cf);
+  do _ <- from_sparse tt (map (fun p => (p, tt)) (snd cf));
   Ok r.
 
 (* stream.get(pos..) for the BoundSheet8 position (Err since repo commit 992524e) *)
@@ -471,28 +470,23 @@ Fixpoint mulrk_denote (row col : N) (rks : list (N * rk_form)) : list cellv :=
               :: mulrk_denote row (col + 1) t
   end.
 
-(* [full = true]: the cached result as stored (the property's reading);
-   [full = false]: what the current reader takes from it — the STRING record's own characters,
-   the CONTINUE fragments are dropped (parse_string looks at r.data only; see known_C02) *)
-Definition cached_data_gen (full : bool) (c : cached) : data :=
+Definition cached_data (c : cached) : data :=
   match c with
   | CNum bits => DFloat bits
   | CBool b => DBool b
   | CErr e => DError e
   | CBlank => DString []
-  | CStr s more => DString (decode16 (utf16le (if full then cstr_units s more else s_units s)))
+  | CStr s more => DString (decode16 (utf16le (cstr_units s more)))
   end.
-Definition cached_data : cached -> data := cached_data_gen true.
 
 (* the value of a formula cell: its cached result; a number under the cell's number format *)
-Definition formula_data_gen (full : bool) (ixfe : N) (c : cached) : data :=
+Definition formula_data (ixfe : N) (c : cached) : data :=
   match c with
   | CNum bits => num_data ixfe (RFloat bits)
-  | _ => cached_data_gen full c
+  | _ => cached_data c
   end.
-Definition formula_data : N -> cached -> data := formula_data_gen true.
 
-Definition item_cells_gen (full : bool) (it : item) : list cellv :=
+Definition item_cells (it : item) : list cellv :=
   match it with
   | INumber row col ixfe bits => [((row, col), num_data ixfe (RFloat bits))]
   | IRk row col ixfe f => [((row, col), num_data ixfe (rk_form_value fdiv100 f))]
@@ -505,17 +499,13 @@ Definition item_cells_gen (full : bool) (it : item) : list cellv :=
   | ILabel row col ixfe s => [((row, col), DString (str_text s))]
   | IBool row col ixfe b => [((row, col), DBool b)]
   | IErr row col ixfe e => [((row, col), DError e)]
-  | IFormula row col ixfe c _ _ _ _ => [((row, col), formula_data_gen full ixfe c)]
+  | IFormula row col ixfe c _ _ _ _ => [((row, col), formula_data ixfe c)]
   | IDims _ _ _ _ _ => []
   | IOther _ _ => []
   end.
-Definition item_cells : item -> list cellv := item_cells_gen true.
-Definition item_read : item -> list cellv := item_cells_gen false.
 
 (* the logical sheet a layout stands for: its cells in stream order *)
 Definition logical (c : layout) : list cellv := flat_map item_cells (l_items c).
-(* what the current reader makes of it (differs from [logical] only inside known_C02's class) *)
-Definition read_logical (c : layout) : list cellv := flat_map item_read (l_items c).
 
 (* the positions of its formula cells, in stream order *)
 Definition item_fmls (it : item) : list pos :=
@@ -592,23 +582,13 @@ Fixpoint sorted_by_rowb (cs : list cellv) : bool :=
                  end
   end.
 
-(* classes of legal layouts on which the current code is known to violate the property.
-   1 = StringContinue: a formula's string result continued in CONTINUE records with at least one
-       character there — the sheet loop hands r.data (the STRING record's own bytes) to
-       parse_string and never looks at r.cont, so the cell reads only the first fragment.
-   (An earlier class — a LABEL or STRING record holding the empty string, rejected by
-   parse_string's former [r.len() < 4] — was repaired in /repo by commit 1abac51; the model
-   follows the repaired guard.) *)
-Definition is_nilb (A : Type) (l : list A) : bool := match l with [] => true | _ => false end.
-
-Definition item_known (it : item) : bool :=
-  match it with
-  | IFormula _ _ _ (CStr _ more) _ _ _ _ => negb (is_nilb (flat_map s_units more))
-  | _ => false
-  end.
-
-Definition known_C02 (c : layout) : option N :=
-  if existsb item_known (l_items c) then Some 1 else None.
+(* classes of legal layouts on which the current code is known to violate the property: none.
+   Two were found while building this model and repaired in /repo: a LABEL or STRING record
+   holding the empty string (commit 1abac51), and a formula string result continued in CONTINUE
+   records, which was cut at the end of the STRING record (StringContinue; fix commit on branch
+   c02-fixes: the STRING arm reads through read_dbcs).  Kept so that the check's plumbing
+   (model|spec|known) stays uniform. *)
+Definition known_C02 (c : layout) : option N := None.
 
 (* ---- named shapes of ignored records (all are IOther items; see ignorable_wf) ---- *)
 Definition blank_item (row col ixfe : N) : item := IOther 513 (cell_head row col ixfe).
@@ -624,11 +604,11 @@ Definition index_item (rf rl : N) (dbcells : list N) : item :=                  
   IOther 523 ([0; 0; 0; 0] ++ le_bytes 4 rf ++ le_bytes 4 rl ++ [0; 0; 0; 0]
               ++ flat_map (le_bytes 4) dbcells).
 
-(* legal c L : c is a legal BIFF8 layout of the logical sheet L, cell records in row order
-   (Range::from_sparse takes the first and last cell's rows as the row bounds; Excel writes
-   row blocks in order; out-of-order records are outside the property — see notes/C02.md) *)
+(* legal c L : c is a legal BIFF8 layout of the logical sheet L.  The cell records may come in
+   ANY order (since repo commit 3140dd1 Range::from_sparse searches all four bounds; before,
+   it took the rows of the first and last cell and [legal] had to ask for row order). *)
 Definition legal (c : layout) (L : list cellv) : Prop :=
-  wf_layout c = true /\ logical c = L /\ sorted_by_rowb L = true.
+  wf_layout c = true /\ logical c = L.
 
 (* the expected range of a logical sheet: tight bounding box, every cell at its position
    (the last record wins on a repeated position), Empty elsewhere *)
